@@ -151,4 +151,25 @@ example : serialize sjisSub ⟨List.replicate 8 0, [(0, bs ['h', 'i'])], [(4, 8)
   · intro p hp n hn; simp at hp; subst hp; simp at hn; subst hn; exact ⟨bs ['X'], by decide⟩
   · decide
 
+/-- A content with a string, a pointer to the end address and an end label (big-endian). -/
+def exK : Content := ⟨List.replicate 8 0, [(0, bs ['h', 'i'])], [(4, 8)], [(8, [bs ['X']])]⟩
+
+private def exD (s : Str) : Prop := s = bs ['h', 'i'] ∨ s = bs ['X']
+
+private theorem exD_faithful : sjisSub.Faithful exD := by
+  rintro s (rfl | rfl)
+  · exact ⟨bs ['h', 'i'], by decide, by decide, by decide⟩
+  · exact ⟨bs ['X'], by decide, by decide, by decide⟩
+
+/-- The hypotheses of `reserialize_canonical` hold for a non-trivial content. -/
+example : ∃ b, parse sjisSub .big (canonical sjisSub.enc .big exK) = .ok b ∧
+    serialize sjisSub b = .ok (canonical sjisSub.enc .big exK) := by
+  apply reserialize_canonical sjisSub exD .big exK exD_faithful
+  · exact ⟨by decide, by decide, by decide, by decide, by decide⟩
+  · intro p hp; simp [exK] at hp; subst hp; exact Or.inl rfl
+  · intro p hp n hn; simp [exK] at hp; subst hp; simp at hn; subst hn; exact Or.inr rfl
+  · simp only [canonical, canonTextStart, textSection, stored, labelEntries, sortedLabels, sortedStrings,
+      ptrTable, sortedPointers, stringGroups, canonData, labelTable, exK, List.mergeSort_singleton]
+    decide
+
 end Mila.Props.C02
